@@ -253,6 +253,20 @@ fn impl_earliest() -> bool {
     }
 }
 
+/// the code's own "needs lower-casing" predicate, which the model takes as the fact `upper`:
+/// `char::is_uppercase` in the pinned tree, `has_lowercase_form` (upper- or title-case) after the repair
+fn impl_lowers_titlecase() -> bool {
+    static P: std::sync::OnceLock<bool> = std::sync::OnceLock::new();
+    *P.get_or_init(|| {
+        let p = format!("{}/src/plugin/input_text/default_input_text/mod.rs", repo_sudachi_dir());
+        std::fs::read_to_string(p).map(|s| s.contains("fn has_lowercase_form")).unwrap_or(false)
+    })
+}
+
+fn code_upper(c: char) -> bool {
+    if impl_lowers_titlecase() { c.is_uppercase() || c.to_lowercase().next() != Some(c) } else { c.is_uppercase() }
+}
+
 fn gen_text(rng: &mut Rng, cfg: &Cfg, directed: Option<usize>, sub: usize) -> String {
     match (directed, sub) {
         (Some(0), 0) => return "abc".into(),
@@ -293,7 +307,7 @@ fn gen_text(rng: &mut Rng, cfg: &Cfg, directed: Option<usize>, sub: usize) -> St
         }
     }
     if fast_only {
-        s = s.chars().filter(|c| !c.is_uppercase() && is_nfkc_quick(std::iter::once(*c)) == IsNormalized::Yes).collect();
+        s = s.chars().filter(|c| !code_upper(*c) && is_nfkc_quick(std::iter::once(*c)) == IsNormalized::Yes).collect();
     }
     s
 }
@@ -330,7 +344,7 @@ fn fact(c: char, cl: &Classes) -> String {
     format!(
         "{}:{}:{}:{}:{}:{}:{}:{}:{}",
         c as u32,
-        c.is_uppercase() as u8,
+        code_upper(c) as u8,
         qc_of(c),
         canonical_combining_class(c),
         cl.kanji(c) as u8,
@@ -355,7 +369,7 @@ fn facts_for(seed_chars: &BTreeSet<char>, cl: &Classes) -> String {
 fn unihyp(run: &mut Run, chars: &BTreeSet<char>) {
     for &c in chars {
         run.bump("unihyp:characters-checked");
-        let up = c.is_uppercase();
+        let up = code_upper(c);
         let q = qc_of(c) == 0;
         let lower: Vec<char> = c.to_lowercase().collect();
         let n1: Vec<char> = std::iter::once(c).nfkc().collect();
@@ -410,7 +424,7 @@ fn norm_spec(ign: &[char], pairs: &[(String, String)], text: &str, pick: KeyPick
 }
 
 fn slow_path(text: &str) -> bool {
-    is_nfkc_quick(text.chars()) != IsNormalized::Yes || text.chars().any(|c| c.is_uppercase())
+    is_nfkc_quick(text.chars()) != IsNormalized::Yes || text.chars().any(code_upper)
 }
 
 /// maximal runs of two or more marks become one replacement symbol
